@@ -200,6 +200,24 @@ pub async fn run(out: &mut Out) {
         out.stat("cache_history");
     }
 
+    // ---- (b') an external command that cannot be started (wrong path, not executable): nobody it would have to vouch for is admitted
+    for (hi, cmd) in ["/nonexistent/redproxy-auth-helper", "/verif/harness/pki/ca.crt"].iter().enumerate() {
+        let mut auth: crate::common::auth::AuthData = serde_yaml::from_str(&format!("required: true\nusers:\n  - username: user\n    password: pass\ncmd: [\"{}\", \"#USER#\", \"#PASS#\"]\ncache:\n  timeout: 300", cmd)).unwrap();
+        auth.init().await.unwrap();
+        let creds: Vec<(&[u8], &[u8])> = vec![(b"user", b"pass"), (b"user", b"wrong"), (b"alice", b"x:secret"), (b"mallory", b"guess"), (b"mallory", b"guess"), (b"user", b"wrong"), (b"", b"")];
+        let mut verdicts = String::new();
+        for (u, p) in creds.iter() {
+            let v = auth.check(&Some((String::from_utf8_lossy(u).to_string(), String::from_utf8_lossy(p).to_string()))).await;
+            verdicts.push(if v { '1' } else { '0' });
+            let static_ok = *u == b"user" && *p == b"pass";
+            if v != static_ok {
+                out.oracle_fail("routed-without-valid-credentials", &format!("external command {} cannot be started: {:?}/{:?} judged {}", cmd, String::from_utf8_lossy(u), String::from_utf8_lossy(p), v));
+            }
+        }
+        out.case(&format!("HX {} {}", hi, creds.iter().map(|(u, p)| format!("{}:{}", hex(u), hex(p))).collect::<Vec<_>>().join(",")), &format!("verdicts={}", verdicts));
+        out.stat("helper_unavailable_history");
+    }
+
     // ---- (c) TLS client certificates on the http / socks / quic listeners
     for kind in ["http", "socks", "quic"] {
         for policy in ["absent", "optional", "required", "required-emptyca", "required-keyonlyca"] {
